@@ -1226,10 +1226,13 @@ impl Core {
 		let memtable_count = memtables.len();
 		if memtable_count > 1 {
 			log::info!("Recovery: flushing {} intermediate memtables to SST", memtable_count - 1);
-			let last_wal_number = memtables[memtable_count - 1].1;
-			for (memtable, wal_number) in memtables.iter().take(memtable_count - 1) {
+			for i in 0..memtable_count - 1 {
+				let (memtable, wal_number) = &memtables[i];
+				// A segment is completely in tables only once its LAST piece is flushed:
+				// the next piece belongs to a later segment.
+				let segment_complete = memtables[i + 1].1 > *wal_number;
 				if !memtable.is_empty() {
-					flush_memtable(Arc::clone(memtable), *wal_number, *wal_number < last_wal_number)?;
+					flush_memtable(Arc::clone(memtable), *wal_number, segment_complete)?;
 				}
 			}
 		}
